@@ -238,9 +238,9 @@ func twinMapSpec(name string, hint int, prefill int, level int) *SeqSpec {
 			installCacheLayout(&lay)
 		}
 		if hint == 0 {
-			a, b = mapAdapter{xsync.NewMap()}, newMapOfStrAny()
+			a, b = mapAdapter{m: xsync.NewMap()}, newMapOfStrAny()
 		} else {
-			a, b = mapAdapter{xsync.NewMap(xsync.WithPresize(hint))}, newMapOfStrAny(xsync.WithPresize(hint))
+			a, b = mapAdapter{m: xsync.NewMap(xsync.WithPresize(hint))}, newMapOfStrAny(xsync.WithPresize(hint))
 		}
 		for j := 0; j < prefill; j++ {
 			a.Store(fillTarget+j, 1000+j)
